@@ -109,6 +109,9 @@ pub struct Case {
     /// global time at which the latch frame enters device 0
     pub latch_at: u64,
     pub now: u64,
+    /// closed ports hold a receive time this many ns (times the port number) before the entry time
+    /// (None: zero)
+    pub stale: Option<u64>,
 }
 
 fn is_chain(t: &Tree) -> bool {
@@ -145,6 +148,7 @@ fn run_case(acc: &mut Acc, case: &Case) {
     // make the latch frame enter device 0 exactly at `latch_at`: the segment clock is set when the
     // latch BWR arrives (hook in the simulator)
     net.seg.borrow_mut().latch_time_override = Some(case.latch_at);
+    net.seg.borrow_mut().closed_port_stale = case.stale;
     net.seg.borrow_mut().keep_logs = true;
     let md = net.md();
     let now = case.now;
@@ -318,7 +322,10 @@ pub fn enumerate(thorough: bool) -> Acc {
             for fwd in [0u64, 40] {
                 let link: Vec<u64> = (0..n).map(|i| links[(i + ti) % 3]).collect();
                 for bits in [3u8, 2] {
-                    run_case(&mut acc, &Case { tree: tree.clone(), dc: vec![bits; n], link: link.clone(), fwd, latch_at: 5_000_000, now: 77_000_000_000 });
+                    run_case(&mut acc, &Case { tree: tree.clone(), dc: vec![bits; n], link: link.clone(), fwd, latch_at: 5_000_000, now: 77_000_000_000, stale: None });
+                }
+                if fwd == 40 {
+                    run_case(&mut acc, &Case { tree: tree.clone(), dc: vec![2; n], link: link.clone(), fwd, latch_at: 5_000_000, now: 77_000_000_000, stale: Some(700) });
                 }
             }
             // every DC / non-DC mask (n <= 4; a sample for larger n)
@@ -328,13 +335,17 @@ pub fn enumerate(thorough: bool) -> Acc {
                     if dc.iter().all(|d| *d > 0) {
                         continue;
                     }
-                    run_case(&mut acc, &Case { tree: tree.clone(), dc, link: vec![100; n], fwd: 40, latch_at: 5_000_000, now: 1 });
+                    run_case(&mut acc, &Case { tree: tree.clone(), dc, link: vec![100; n], fwd: 40, latch_at: 5_000_000, now: 1, stale: None });
                 }
             }
             // latch instant within one loop time of the 2^32 ns wrap
             if n >= 2 {
                 for back in [1u64, 150, 1_000] {
-                    run_case(&mut acc, &Case { tree: tree.clone(), dc: vec![2; n], link: vec![100; n], fwd: 40, latch_at: (1u64 << 32) - back, now: 9_000_000_000 });
+                    run_case(&mut acc, &Case { tree: tree.clone(), dc: vec![2; n], link: vec![100; n], fwd: 40, latch_at: (1u64 << 32) - back, now: 9_000_000_000, stale: None });
+                    // the same with left-over times in the registers of the closed ports
+                    for stale in [1_000u64, 1 << 30] {
+                        run_case(&mut acc, &Case { tree: tree.clone(), dc: vec![2; n], link: vec![100; n], fwd: 40, latch_at: (1u64 << 32) - back, now: 9_000_000_000, stale: Some(stale) });
+                    }
                 }
             }
         }
@@ -342,8 +353,8 @@ pub fn enumerate(thorough: bool) -> Acc {
     // long chains
     for n in [8usize, 16, 24] {
         let tree = Tree { parent: (0..n).map(|i| if i == 0 { None } else { Some((i - 1, 1)) }).collect() };
-        run_case(&mut acc, &Case { tree: tree.clone(), dc: vec![3; n], link: (0..n).map(|i| links[i % 3] as u64).collect(), fwd: 40, latch_at: 5_000_000, now: 123 });
-        run_case(&mut acc, &Case { tree, dc: (0..n).map(|i| if i % 3 == 1 { 0 } else { 3 }).collect(), link: vec![100; n], fwd: 40, latch_at: 5_000_000, now: 123 });
+        run_case(&mut acc, &Case { tree: tree.clone(), dc: vec![3; n], link: (0..n).map(|i| links[i % 3] as u64).collect(), fwd: 40, latch_at: 5_000_000, now: 123, stale: None });
+        run_case(&mut acc, &Case { tree, dc: (0..n).map(|i| if i % 3 == 1 { 0 } else { 3 }).collect(), link: vec![100; n], fwd: 40, latch_at: 5_000_000, now: 123, stale: None });
     }
     inconsistent(&mut acc, 1);
     inconsistent(&mut acc, 2);
@@ -361,7 +372,7 @@ pub fn c17(tier: &Tier, child: bool) -> Result<i32, String> {
         return Ok(0);
     }
     let mut rep = Report::new("C17", "exploration", tier);
-    rep.rule = "every rooted tree with up to 5 nodes (6 thorough) whose children hang off distinct ports of {3,1,2}, numbered in frame-processing order; per tree: all-DC with 32- and 64-bit clocks, forwarding delay 0 / 40 ns, link delays {10,100,2000} ns by position; every DC/non-DC mask (n <= 4); latch instants 1, 150 and 1000 ns before the 2^32 ns wrap; chains of 8, 16 and 24; port receive times come from a physical model of the tree; no-panic clause: every assignment of open-port sets (16 per device) x 4 port-time patterns for 1 and 2 devices (3 thorough); with and without overflow checks; non-trivial = every network".into();
+    rep.rule = "every rooted tree with up to 5 nodes (6 thorough) whose children hang off distinct ports of {3,1,2}, numbered in frame-processing order; per tree: all-DC with 32- and 64-bit clocks, forwarding delay 0 / 40 ns, link delays {10,100,2000} ns by position; every DC/non-DC mask (n <= 4); latch instants 1, 150 and 1000 ns before the 2^32 ns wrap, each also with left-over receive times (1000 ns / 2^30 ns per port number before the entry time) in the registers of the closed ports; chains of 8, 16 and 24; port receive times come from a physical model of the tree; no-panic clause: every assignment of open-port sets (16 per device) x 4 port-time patterns for 1 and 2 devices (3 thorough); with and without overflow checks; non-trivial = every network".into();
     rep.assumptions = vec![
         "physical model: a frame entering a port is time-stamped with the local clock, forwarding to the next open port costs f, a link costs w each way, ports are visited 0 -> 3 -> 1 -> 2 -> 0; with one forwarding delay shared by all devices the true one-way delay on a chain is the sum of (w + f)".into(),
         "the exact-delay clause is judged on chains; the monotonicity, upstream-neighbour, offset and reference clauses on every tree".into(),
